@@ -169,6 +169,12 @@ impl<VM: VMBinding> GCWorker<VM> {
             self.scheduler.work_buckets[bucket].add_prioritized(Box::new(work));
             return;
         }
+        #[cfg(mmtk_verif)]
+        crate::verif::events::emit(|| crate::verif::events::Ev::PacketAdd {
+            stage: enum_map::Enum::into_usize(bucket),
+            name: work.get_type_name(),
+            local: true,
+        });
         self.local_work_buffer.push(Box::new(work));
     }
 
@@ -182,6 +188,12 @@ impl<VM: VMBinding> GCWorker<VM> {
             self.scheduler.work_buckets[bucket].add(work);
             return;
         }
+        #[cfg(mmtk_verif)]
+        crate::verif::events::emit(|| crate::verif::events::Ev::PacketAdd {
+            stage: enum_map::Enum::into_usize(bucket),
+            name: work.get_type_name(),
+            local: true,
+        });
         self.local_work_buffer.push(Box::new(work));
     }
 
@@ -260,7 +272,17 @@ impl<VM: VMBinding> GCWorker<VM> {
             std::hint::black_box(unsafe { *(typename.as_ptr()) });
 
             probe!(mmtk, work, typename.as_ptr(), typename.len());
+            #[cfg(mmtk_verif)]
+            crate::verif::events::emit(|| crate::verif::events::Ev::PacketStart {
+                worker: self.ordinal,
+                name: typename,
+            });
             work.do_work_with_stat(&mut self, mmtk);
+            #[cfg(mmtk_verif)]
+            crate::verif::events::emit(|| crate::verif::events::Ev::PacketEnd {
+                worker: self.ordinal,
+                name: typename,
+            });
         }
         debug!(
             "Worker exiting. ordinal: {}, {}",
@@ -427,6 +449,11 @@ impl<VM: VMBinding> WorkerGroup<VM> {
         };
         let ordinal = worker.ordinal;
         workers.push(worker);
+        #[cfg(mmtk_verif)]
+        crate::verif::events::emit(|| crate::verif::events::Ev::Surrender {
+            ordinal,
+            all: workers.len() == self.workers_shared.len(),
+        });
         trace!(
             "Worker {} surrendered. ({}/{})",
             ordinal,
